@@ -285,6 +285,135 @@ mod verif_c08 {
         std::mem::forget(w);
     }
 
+    /// `return v` inside try..finally whose finally block then THROWS: the exception supersedes the
+    /// return. It reaches the enclosing handler, and the abandoned return must not come back - a later
+    /// finally block that is entered by falling through resumes nothing.
+    #[kani::proof]
+    #[kani::unwind(5)]
+    #[kani::stub(std::fmt::format, fmt_stub)]
+    #[kani::stub(crate::vm::Vm::new_root_obj_err_from_error, crate::vm::verif_vm::err_instance_stub)]
+    #[kani::stub(crate::vm::Vm::new_error_from_value, crate::vm::verif_vm::error_from_value_stub)]
+    fn c08_exception_out_of_finally_supersedes_parked_return() {
+        let (outer, inner) = (sizes(), sizes());
+        kani::assume(outer.1 > 0);
+        let (l1, l2, v, e): (f64, f64, f64, f64) = kani::any();
+        let mut st = FiberStore::empty();
+        let mut w = world(&mut st, code_with(outer, inner), l1, l2);
+        push_handler(&mut w, OUTER_ARGS); // try {
+        push_handler(&mut w, INNER_ARGS); //   try {
+        w.vm.push(Value::Number(v)); //          return v;
+        w.vm.ip = unsafe { w.base.offset(30) };
+        w.vm.jump_finally_impl(); //           } finally {
+        assert!(w.vm.ip == finally_addr(&w, INNER_ARGS, inner) && handlers(&w) == 1, "the finally block runs, the outer handler is active");
+        w.vm.push(Value::Number(e)); //          throw e;
+        w.vm.ip = unsafe { w.base.offset(45) };
+        let r = w.vm.throw_impl(); //          }
+        kani::cover!(r.is_ok(), "reach");
+        assert!(r.is_ok() && w.vm.ip == catch_addr(&w, OUTER_ARGS, outer), "the exception thrown by the finally block reaches the enclosing handler");
+        assert!(w.vm.stack_size() == 4 && num(slot(&w, 3), e) && !w.vm.handling_exception, "and is handled there");
+        // } catch e { .. }   then, later in the same fiber:   try { .. } finally { .. }  entered by falling through
+        w.vm.pop();
+        let here = unsafe { w.base.offset(55) };
+        w.vm.ip = here;
+        let r2 = w.vm.end_finally_impl();
+        assert!(r2.is_ok() && w.vm.ip == here && w.vm.stack_size() == 3, "a finally block entered by falling through just continues: the superseded return does not come back");
+        std::mem::forget(r);
+        std::mem::forget(r2);
+        std::mem::forget(w);
+    }
+
+    /// `return v` inside try..finally whose finally block raises an exception that is CAUGHT inside the
+    /// finally block: the finally block completes normally, so the original outcome - the return of v -
+    /// continues.
+    #[kani::proof]
+    #[kani::unwind(5)]
+    #[kani::stub(std::fmt::format, fmt_stub)]
+    #[kani::stub(crate::vm::Vm::new_root_obj_err_from_error, crate::vm::verif_vm::err_instance_stub)]
+    #[kani::stub(crate::vm::Vm::new_error_from_value, crate::vm::verif_vm::error_from_value_stub)]
+    fn c08_exception_caught_inside_finally_keeps_parked_return() {
+        let (outer, inner) = (sizes(), sizes());
+        kani::assume(outer.1 > 0);
+        let (l1, l2, v, e): (f64, f64, f64, f64) = kani::any();
+        let mut st = FiberStore::empty();
+        let mut w = world(&mut st, code_with(outer, inner), l1, l2);
+        push_handler(&mut w, INNER_ARGS); // try {
+        w.vm.push(Value::Number(v)); //        return v;
+        let ret_ip = unsafe { w.base.offset(30) };
+        w.vm.ip = ret_ip;
+        w.vm.jump_finally_impl(); //         } finally {
+        push_handler(&mut w, OUTER_ARGS); //   try {          (a try/catch nested in the finally block)
+        w.vm.push(Value::Number(e)); //          throw e;
+        w.vm.ip = unsafe { w.base.offset(45) };
+        let r = w.vm.throw_impl(); //          } catch x {
+        kani::cover!(r.is_ok(), "reach");
+        assert!(r.is_ok() && w.vm.ip == catch_addr(&w, OUTER_ARGS, outer) && !w.vm.handling_exception, "caught by the handler inside the finally block");
+        w.vm.pop(); //                         }
+        let r2 = w.vm.end_finally_impl(); // }
+        assert!(r2.is_ok() && w.vm.ip == ret_ip, "the finally block completed normally: the return resumes");
+        assert!(w.vm.stack_size() == 4 && num(slot(&w, 3), v), "with the value it was returning");
+        assert!(num(slot(&w, 1), l1) && num(slot(&w, 2), l2), "locals intact");
+        std::mem::forget(r);
+        std::mem::forget(r2);
+        std::mem::forget(w);
+    }
+
+    /// A built-in that fails (a native returning Err, or an operation routing an error through
+    /// try_handle_error) inside try..finally without catch: the error value arrives at the finally block,
+    /// and when the finally block ends the exception continues to the enclosing handler - it is not
+    /// dropped.
+    fn failing_native(_vm: &mut Vm, _n: usize) -> Result<Value, Error> {
+        Err(Error::new(ErrorKind::RuntimeError))
+    }
+    fn builtin_error_case(through_native: bool) {
+        let (outer, inner) = (sizes(), sizes());
+        kani::assume(outer.1 > 0);
+        let inner = (inner.0, 0u16); // try..finally without catch
+        let (l1, l2, t): (f64, f64, f64) = kani::any();
+        let mut st = FiberStore::empty();
+        let mut w = world(&mut st, code_with(outer, inner), l1, l2);
+        let mut nat = crate::memory::verif_mem::Placed::new(ObjNative::new(Gc::dangling(), failing_native as NativeFn, false));
+        push_handler(&mut w, OUTER_ARGS);
+        push_handler(&mut w, INNER_ARGS);
+        w.vm.push(Value::Number(t)); // a temporary of the try block
+        w.vm.ip = unsafe { w.base.offset(40) };
+        let r = if through_native {
+            w.vm.push(Value::None); // receiver slot of the call
+            w.vm.call_native(nat.gc(), 0)
+        } else {
+            w.vm.try_handle_error(Error::new(ErrorKind::TypeError))
+        };
+        assert!(r.is_ok() && w.vm.ip == finally_addr(&w, INNER_ARGS, inner), "the failure is delivered to the finally block");
+        assert!(w.vm.stack_size() == 4 && matches!(slot(&w, 3), Value::ObjInstance(_)), "as an error instance above the values live at try entry");
+        assert!(handlers(&w) == 1, "outer handler still active while finally runs");
+        let pending = slot(&w, 3);
+        let r2 = w.vm.end_finally_impl();
+        kani::cover!(r2.is_ok(), "reach");
+        assert!(r2.is_ok() && w.vm.ip == catch_addr(&w, OUTER_ARGS, outer), "after the finally block the exception continues to the enclosing handler");
+        assert!(w.vm.stack_size() == 4 && slot(&w, 3) == pending, "carrying the same error value");
+        assert!(handlers(&w) == 0 && !w.vm.handling_exception, "and is handled there");
+        assert!(num(slot(&w, 1), l1) && num(slot(&w, 2), l2), "locals intact");
+        std::mem::forget(r);
+        std::mem::forget(r2);
+        std::mem::forget(nat);
+        std::mem::forget(w);
+    }
+    #[kani::proof]
+    #[kani::unwind(5)]
+    #[kani::stub(std::fmt::format, fmt_stub)]
+    #[kani::stub(crate::vm::Vm::new_root_obj_err_from_error, crate::vm::verif_vm::err_instance_stub)]
+    #[kani::stub(crate::vm::Vm::new_error_from_value, crate::vm::verif_vm::error_from_value_stub)]
+    fn c08_failing_native_runs_finally_then_continues() {
+        builtin_error_case(true);
+    }
+    #[kani::proof]
+    #[kani::unwind(5)]
+    #[kani::stub(std::fmt::format, fmt_stub)]
+    #[kani::stub(crate::vm::Vm::new_root_obj_err_from_error, crate::vm::verif_vm::err_instance_stub)]
+    #[kani::stub(crate::vm::Vm::new_error_from_value, crate::vm::verif_vm::error_from_value_stub)]
+    fn c08_failing_operation_runs_finally_then_continues() {
+        builtin_error_case(false);
+    }
+
     /// Twin: must FAIL.
     #[kani::proof]
     #[kani::unwind(5)]
